@@ -40,7 +40,7 @@ PROFILE = G.profile(max_bars=3, max_voices=2, max_staves=2, midbar_changes=False
 
 SCORE_OPS = ["musicxml", "score_midi", "note_array", "part_note_array", "rest_array", "pianoroll", "maps", "pretty",
              "unfold_max", "unfold_min", "iter_unfolded", "spelling", "voices", "key", "transpose", "len_index", "save_match", "nested_iter_score"]
-PERF_OPS = ["perf_midi", "perf_note_array", "perf_len_index", "nested_iter_perf"]
+PERF_OPS = ["perf_midi", "perf_note_array", "perf_len_index", "nested_iter_perf", "loose_midi", "loose_note_array"]
 
 
 @st.composite
@@ -184,9 +184,36 @@ def build_perf(parts_spec, score, two):
     return P.Performance(performedparts=pps, id="perf"), alignment
 
 
+def build_loose():
+    """Performed parts that do not belong to a Performance, on tracks that are not 0..k-1."""
+    a = P.PerformedPart(notes=[dict(id="l0", midi_pitch=62, note_on=0.0, note_off=0.4, velocity=70, track=2, channel=0),
+                               dict(id="l1", midi_pitch=65, note_on=0.5, note_off=0.9, velocity=71, track=2, channel=0)],
+                        controls=[dict(number=64, time=0.1, value=90, track=2, channel=0)], id="L1")
+    b = P.PerformedPart(notes=[dict(id="m0", midi_pitch=50, note_on=0.2, note_off=0.7, velocity=60, track=0, channel=1)], id="L2")
+    c = P.PerformedPart(notes=[dict(id="k0", midi_pitch=40, note_on=0.0, note_off=1.0, velocity=50, track=0, channel=2)],
+                        programs=[dict(program=5, time=0.0, track=0, channel=2)], id="L3")
+    return [a, b, c]
+
+
+class _Loose(object):
+    """Presents the loose parts to perf_fingerprint."""
+
+    def __init__(self, pps):
+        self.performedparts = pps
+
+
 # ------------------------------------------------------------------ the operations
-def run_op(name, a, b, score, perf, alignment, tmp):
+def run_op(name, a, b, score, perf, alignment, tmp, loose=None):
     """Returns (result key, comparable result)."""
+    if name == "loose_midi":
+        # a bare PerformedPart / a list of PerformedParts as argument (not wrapped in a Performance)
+        arg = [loose[0], [loose[0]], [loose[1], loose[2]], list(loose), loose[2]][a % 5]
+        path = os.path.join(tmp, "l.mid")
+        kw = dict(ppq=[96, 480][b % 2], merge_tracks_save=bool(b & 2))
+        call(save_performance_midi, arg, path, **kw)
+        return ("loose_midi", a % 5, tuple(sorted(kw.items()))), open(path, "rb").read()
+    if name == "loose_note_array":
+        return ("loose_note_array", a % 3), call(loose[a % 3].note_array)
     part = score.parts[a % len(score.parts)]
     if name in ("pianoroll", "spelling", "voices", "key") and not part.notes:
         # these raise "Note array is empty" / are undefined for a part without notes (documented)
@@ -282,8 +309,10 @@ def oracle(spec):
         for (a, b) in ps.get("repeats", []):
             p.add(S.Repeat(), a, b)
     perf, alignment = build_perf(spec["parts"], score, spec["two_pparts"])
+    loose = build_loose()
     fp_s = score_fingerprint(score)
     fp_p = perf_fingerprint(perf)
+    fp_l = perf_fingerprint(_Loose(loose))
     fp_al = repr(alignment)
     results = {}
     iters, piters = [], []  # [iterator, expected remaining ids]
@@ -316,7 +345,7 @@ def oracle(spec):
                     if exp is None:
                         pool.remove(rec)
                 else:
-                    key, res = run_op(name, a, b, score, perf, alignment, tmp)
+                    key, res = run_op(name, a, b, score, perf, alignment, tmp, loose)
                     kinds.add(name)
                     if name.startswith("nested_iter") and res != (True, True, True):
                         o.add("nested-iteration-does-not-visit-every-pair", where=where, checks=list(res))
@@ -339,10 +368,14 @@ def oracle(spec):
             if nowp != fp_p:
                 o.add("performance-modified-by:" + name, where=where, first_difference=diff_fp(fp_p, nowp)[:400])
                 break
+            nowl = perf_fingerprint(_Loose(loose))
+            if nowl != fp_l:
+                o.add("performed-part-argument-modified-by:" + name, where=where, first_difference=diff_fp(fp_l, nowl)[:400])
+                break
             if repr(alignment) != fp_al:
                 o.add("alignment-modified-by:" + name, where=where)
                 break
-    exporters = kinds & {"musicxml", "score_midi", "save_match", "perf_midi"}
+    exporters = kinds & {"musicxml", "score_midi", "save_match", "perf_midi", "loose_midi"}
     live2 = sum(1 for x in spec["ops"] if x[0] == "iter_new") >= 2 or sum(1 for x in spec["ops"] if x[0] == "piter_new") >= 2
     o.nontrivial = (len(exporters) >= 2 and repeated) or live2
     o.cls("two-exporters-and-repeat", len(exporters) >= 2 and repeated)
